@@ -8,7 +8,7 @@ PID = "C01"
 RULE = ("environments of 1-3 shapes of all kinds (simple bounded/unbounded, holes, several components, Empty, Whole) with "
         "pairwise boundaries in general position (exact test: only transversal crossings), int / Fraction coordinates "
         "(and a float stream for single | & -), expressions over | & - ^ ~ + * neg up to depth 3; judged at one point of "
-        "every cell of the edge arrangement of all operands (complete for polygons); curved stream: the cap under a parabola (one quadratic segment) "
+        "every cell of the edge arrangement of all operands (complete for polygons); operands that share one complete boundary curve ((O-K)-K, (O-K)|K, (O-K)&~K, K-(O-K), ... for a polygon O with holes); curved stream: the cap under a parabola (one quadratic segment) "
         "against polygons in general position, | & - both ways, closed-form membership oracle, half of the cases with a "
         "polygon corner inside the lens between an arc piece and its chord; a curated curved corpus (circle vs square / "
         "circle) runs in the thorough tier; non-trivial = the operand boundaries cross (>= 2 crossings) or an "
@@ -20,6 +20,8 @@ TRUSTED_EXTRA = ["oracle: exact slab sampling of the edge arrangement + crossing
 
 def cases(ctx):
     yield from OC.gen_cases(ctx, ctx.n(36, 900), ctx.n(16, 500))
+    # operands sharing one complete boundary curve: (O-K)-K, (O-K)|K, (O-K)&~K, ...
+    yield from OC.law_cases(ctx.rng, ctx.n(16, 240))
     # curved operand with a closed-form oracle: the cap under a parabola against polygons (float data; no ^: F17)
     from .. import curved as C
     for i in range(ctx.n(12, 240)):
@@ -35,7 +37,7 @@ def cases(ctx):
 
 
 def nontrivial(case):
-    if case.get("curved") or "cap" in case:
+    if case.get("curved") or "cap" in case or "law" in case:
         return True
     return OC.nontrivial(case)
 
@@ -103,6 +105,15 @@ def check(ctx, case):
         return _curved(ctx, case)
     if "cap" in case:
         return _cap(ctx, case)
+    if "law" in case:
+        ctx.count("law:" + case["law"])
+        r, h, K, truth = OC.law_run(case)
+        if r[0] != "ok":
+            return [Fail(kind="O", what="%s raised (O a polygon, K one of its holes)" % case["law"], impl=r)]
+        wrong = OC.law_wrong_points(case, I.shape_data(r[1]))
+        if wrong:
+            return [Fail(kind="O", what="%s is not the set-theoretic result at %d sample points" % (case["law"], len(wrong)), first=wrong[0])]
+        return []
     fails = []
     env, e, num = case["env"], case["expr"], case["num"]
     exact = num != "float"
